@@ -118,6 +118,9 @@ def _T():
          'initial': 'x'},
         {'op': 'change_field', 'model': 'A', 'name': 'f3',
          'attrs': {'null': True}, 'new_kind': 'Text'},
+        # ---- 32: the model is deleted under its second new name (needs B's
+        # relation to it gone first: template 20 deletes B)
+        {'op': 'delete_model', 'model': 'D'},
     ]
     for e in t:
         e['app'] = 'app1'
@@ -130,6 +133,7 @@ EXTRA_SEQS = [
     [17, 22, 14, 15, 22, 14],   # the same next to an index_together
     [16, 22, 27, 22, 16],       # Meta.indexes replaced and restored
     [10, 22, 11],               # field index dropped and re-created
+    [20, 18, 29, 32],           # renamed twice, then deleted
 ]
 N_FIELD_TEMPLATES = 14      # templates 0..13 only touch fields of model A
 TEMPLATES = _T()
